@@ -1,6 +1,7 @@
 package props
 
 import (
+	"encoding/base64"
 	"context"
 	"fmt"
 	"strings"
@@ -77,7 +78,16 @@ func checkWire(log []*wire.Rec, returned, unaryReturned map[string]uint64, close
 		}
 		if e.Dir == 0 {
 			if st == nil {
-				st = &idState{unary: r.GetHeader().GetMethod() == svc.MUnary, tag: kvHasTag(r)}
+				st = &idState{unary: r.GetHeader().GetMethod() == svc.MUnary || r.GetHeader().GetMethod() == svc.MUnary2, tag: kvHasTag(r)}
+				// an open whose request metadata cannot be decoded is refused: the server answers
+				// it with a reset although no body was sent
+				for _, kv := range r.GetHeader().GetHeaders() {
+					if strings.HasSuffix(strings.ToLower(kv.GetKey()), "-bin") {
+						if _, err := base64.URLEncoding.DecodeString(kv.GetValue()); err != nil {
+							st.c2sBody = true
+						}
+					}
+				}
 				ids[id] = st
 			}
 		} else if st == nil {
@@ -248,6 +258,7 @@ func c06List(tier string, seed int64) []c06Case {
 	add("directed-cancel-during-open-write", 1000, tierN(tier, 12, 120))
 	add("directed-reset-after-handler-returned", 1000, tierN(tier, 12, 120))
 	add("directed-open-on-ended-context", 1000, tierN(tier, 16, 160))
+	add("directed-refused-open", 1000, tierN(tier, 8, 80))
 	return out
 }
 
@@ -476,6 +487,52 @@ func c06OpenOnEndedContext(tier string, seed int64, idx int) *core.Result {
 	return res
 }
 
+// c06RefusedOpen: a stream open the server must refuse (undecodable request metadata), written
+// raw onto a live connection next to ordinary traffic. The server's whole history for that id is
+// one reset: no handler runs, nothing else is emitted.
+func c06RefusedOpen(tier string, seed int64, idx int) *core.Result {
+	res := &core.Result{Verdict: core.Held}
+	h := bed.NewHooks()
+	h.Install()
+	b := bed.New(bed.Opts{Cap: idx % 3, Serialise: idx%2 == 0})
+	var runs atomic.Int32
+	b.Impl.DefS = func(t, k string, ss grpc.ServerStream) error {
+		runs.Add(1)
+		ss.SendMsg(&svc.BV{Value: []byte("m")})
+		return nil
+	}
+	svc.Invoke(context.Background(), b.Conns[0], fmt.Sprintf("ro-before%d", idx), []byte("x"))
+	method := []string{svc.MBidi, svc.MClient, svc.MServer}[idx%3]
+	raw := &wire.Rpc{Id: 1 << 30, Header: &goatorepo.RequestHeader{Method: method, Source: "c0", Destination: "srv",
+		Headers: []*goatorepo.KeyValue{{Key: "x-bin", Value: "!!!not base64!!!"}}}}
+	done := make(chan error, 1)
+	go func() { done <- b.Links[0].A.Write(context.Background(), raw) }()
+	settle(tier, func() bool { return len(done) > 0 })
+	quiet(tier)
+	svc.Invoke(context.Background(), b.Conns[0], fmt.Sprintf("ro-after%d", idx), []byte("x"))
+	quiet(tier)
+	if n := runs.Load(); n != 0 {
+		res.Violate("handler-ran-for-refused-open", "a stream open with undecodable request metadata was refused with a reset and its handler ran all the same (%d times)", n)
+	}
+	nS := 0
+	for _, e := range b.Links[0].Tap.Log() {
+		if e.Dir == 1 && e.Rpc.GetId() == 1<<30 {
+			nS++
+			if e.Rpc.GetReset_() == nil {
+				res.Violate("refused-open-answered-with-more-than-a-reset", "the server emitted a %s envelope for an id whose open it refused", strings.ToLower(wire.Kind(e.Rpc)))
+				break
+			}
+		}
+	}
+	if nS == 1 {
+		res.Stat("refused_opens", 1)
+	} else if len(res.Violations) == 0 {
+		res.Violate("refused-open-answered-with-more-than-a-reset", "the server emitted %d envelopes for an id whose open it refused (want exactly one reset)", nS)
+	}
+	finish(tier, b, h, res)
+	return res
+}
+
 // c06ResetAfterReturn: the handler sends a message and returns at once; its trailer is held in the
 // server's writer while the caller cancels, so the client's reset reaches the server after the
 // stream has been closed and unregistered there. The server has said its last word for the id.
@@ -573,6 +630,8 @@ func c06Run(tier string, seed int64, idx int) *core.Result {
 		sub = c06ResetAfterReturn(tier, seed, c.Index)
 	case "directed-open-on-ended-context":
 		sub = c06OpenOnEndedContext(tier, seed, c.Index)
+	case "directed-refused-open":
+		sub = c06RefusedOpen(tier, seed, c.Index)
 	case "C01":
 		sub = c01Run(tier, seed, c.Index)
 	case "C02":
@@ -594,7 +653,7 @@ func c06Run(tier string, seed int64, idx int) *core.Result {
 	}
 	// each check reports only its own property: what the workload's own oracle found is not C06's business
 	for k, v := range sub.Stats {
-		if k == "send_parked_across_cancel" || k == "unary_deadline_in_handler" || k == "cancel_during_open_write" || k == "reset_after_handler_returned" || k == "open_on_ended_context" {
+		if k == "send_parked_across_cancel" || k == "unary_deadline_in_handler" || k == "cancel_during_open_write" || k == "reset_after_handler_returned" || k == "open_on_ended_context" || k == "refused_opens" {
 			res.Stat(k, v)
 		}
 	}
@@ -637,11 +696,11 @@ func init() {
 	core.Register(&core.Prop{
 		ID:    "C06",
 		Level: "exploration",
-		Rule:  "trace checking: a fixed-seed sample of the C01, C02, C03 (matrix and race families), C07 and C11 case lists (quick ~850 cases, thorough ~11 500) is re-run and every client link's tap log is projected per (id, direction) and fed to the protocol automata (stream open / body* / trailer+status / resets; unary exactly one request and one response; constant and swapped header fields; metadata only on the first response; server emits only for received ids; server reset only after a body and never before the trailer; end-of-history rules: stream handler returned, no client reset, connection alive => trailer; unary handler returned, connection alive => one response; a client reset is never the first envelope of an id), plus directed families: a send parked across a cancel, a unary deadline expiring inside the handler, a cancel while the opening envelope is inside the transport Write, a client reset reaching the server after the handler returned (trailer held in the writer), a call started on a context that has already ended. evaluations = workload cases; non-trivial = the case's wire history contains a reset or a non-OK trailer; distinct = distinct (workload, index).",
+		Rule:  "trace checking: a fixed-seed sample of the C01, C02, C03 (matrix and race families), C07 and C11 case lists (quick ~850 cases, thorough ~11 500) is re-run and every client link's tap log is projected per (id, direction) and fed to the protocol automata (stream open / body* / trailer+status / resets; unary exactly one request and one response; constant and swapped header fields; metadata only on the first response; server emits only for received ids; server reset only after a body and never before the trailer; end-of-history rules: stream handler returned, no client reset, connection alive => trailer; unary handler returned, connection alive => one response; a client reset is never the first envelope of an id), plus directed families: a send parked across a cancel, a unary deadline expiring inside the handler, a cancel while the opening envelope is inside the transport Write, a client reset reaching the server after the handler returned (trailer held in the writer), a call started on a context that has already ended, a raw stream open with undecodable metadata next to ordinary traffic (the server answers with exactly one reset). evaluations = workload cases; non-trivial = the case's wire history contains a reset or a non-OK trailer; distinct = distinct (workload, index).",
 		Plan:  func(tier string, seed int64) int { return len(c06List(tier, seed)) },
 		Run:   c06Run,
 		RequiredStats: func(string) []string {
-			return []string{"projections", "projections_with_reset_or_error", "handler_returns_checked", "envelopes", "send_parked_across_cancel", "unary_deadline_in_handler", "cancel_during_open_write", "reset_after_handler_returned", "open_on_ended_context"}
+			return []string{"projections", "projections_with_reset_or_error", "handler_returns_checked", "envelopes", "send_parked_across_cancel", "unary_deadline_in_handler", "cancel_during_open_write", "reset_after_handler_returned", "open_on_ended_context", "refused_opens"}
 		},
 		Assumptions: []string{"the automata are transcribed from README.md and the property statement", "only client-side links are checked (one client = one id space)"},
 	})
